@@ -86,6 +86,31 @@ PLAN = e1prop.Plan('C02', ROWS, cfgs=('v6', 'v7', 'v6-nosec', 'v5', 'v7-lpae'), 
                    hooked=(False, False, True))
 
 
+# doubleword forms on their own: few rows, and the interesting address classes (0 / 4 mod 8 on LPAE = one 64-bit access or two words; 1..3 mod 4)
+# are thin under the general generator
+DUAL_ROWS = [r for r in ROWS if r.startswith(('LDRD', 'STRD', 'LDREXD', 'STREXD'))]
+
+
+def aim_dual(rng, row, w, case):
+    f = row.extract(w)
+    st = case['state']
+    mode = gen.MODE_NAME[st['cpsr'] & 31]
+    if isinstance(f.get('n'), int) and f['n'] <= 14:
+        st[gen.bank_key(f['n'], mode)] = (gen.DATA[0] + 0x40 + 8 * rng.randrange(0, 12) + rng.choice((0, 0, 4, 4, 4, 1, 2, 6))) & M32
+    if isinstance(f.get('m'), int) and f['m'] <= 14 and f['m'] != f.get('n'):
+        st[gen.bank_key(f['m'], mode)] = rng.choice((0, 4, 8, 12, 0xFFFFFFFC, 0xFFFFFFF8, 2, 0x10))
+    if row.name.startswith('STREXD'):
+        seed_monitor(rng, row, w, case)
+
+
+def make_dual_plan(prop):
+    return e1prop.Plan(prop, DUAL_ROWS, cfgs=('v7-lpae', 'v7-lpae', 'v7', 'v6'), classify=classify,
+                       case_kw=lambda rng, row: {'mpu': False, 'mmu': False, 'e': rng.getrandbits(1)}, tweak_case=aim_dual, hooked=(False, True))
+
+
+PLAN_DUAL = make_dual_plan('C02')
+
+
 def run(ctx):
     ctx.rule = ('Hypothesis draws (LDR/STR-family encoding row incl. byte/halfword/dual/literal/register/unprivileged/exclusive forms, field '
                 'bits with all P/U/W, register tweak, entropy, config arch 5/6/7); the base register is aimed into / at the edges of / across '
@@ -97,7 +122,8 @@ def run(ctx):
     ctx.assumptions = ['vf/ref (tables + sem_ls.py + machine.py) is a faithful reading of DDI 0406C', 'MPU/MMU off here (C14/C15)',
                        'store-exclusive with the stock monitor stubs is pinned to the documented "no reservation" outcome']
     e1prop.run_plan(ctx, 'vf.props.c02:PLAN', PLAN, shards=32, quick=600, thorough=10000)
+    e1prop.run_plan(ctx, 'vf.props.c02:PLAN_DUAL', PLAN_DUAL, shards=8, quick=150, thorough=3000)
 
 
 def replay(case, bucket=None):
-    return e1prop.replay(PLAN, case)
+    return e1prop.replay(PLAN, case)        # (PLAN_DUAL cases replay identically: one_case only uses the plan for its property id)
